@@ -14,7 +14,8 @@ ASSUME = base.assumptions('A-PY', 'A-BAG', 'A-GEN', 'A-PURE', 'A-PROMPT') + [
     'solve() precondition: requested form names are distinct and not loaded yet; field_names is the default []',
     'a value may be rewritten only by a re-evaluation of the same line (equal by stability of the oracle, A-PURE)']
 
-ALWAYS = ('no-internal-error', 'propagated-exception', 'subset')
+# every property proved through solve()/_attempt_field() uses the callee contract of _add_form: its unit belongs to each of them
+ALWAYS = ('no-internal-error', 'propagated-exception', 'subset', '_add_form/', '_add_form[input_only]/')
 SELECT = {
     'C01': lambda l: True,
     'C03': lambda l: any(k in l for k in ('evaluated-against', 'stored-value-is', 'only-grow', 'never-removed', 'justified', 'met-fields-have-values', 'met-inputs-are-provided', 'announced-as-met', 'untouched')),
@@ -24,14 +25,28 @@ SELECT = {
     'C20': lambda l: any(k in l for k in ('every-answer-given', 'answers-given', 'on-exception', 'inputs-only-grow', 'inputs-untouched', 'escaping-exception', 'input-map-only-grows')),
 }
 UNITS = {
-    'C01': ['solve', 'solve[no-prompt]', '_attempt_field'],
-    'C03': ['solve', '_attempt_field'],
+    'C01': ['solve', 'solve[no-prompt]', '_attempt_field', '_add_form', '_add_form[input_only]'],
+    'C03': ['solve', '_attempt_field', '_add_form', '_add_form[input_only]'],
     'C04': ['solve', '_attempt_field', '_add_form', '_add_form[input_only]'],
-    'C06': ['solve', '_attempt_field'],
-    'C13': ['solve', '_attempt_field'],
-    'C20': ['solve', '_attempt_field'],
+    'C06': ['solve', '_attempt_field', '_add_form', '_add_form[input_only]'],
+    'C13': ['solve', '_attempt_field', '_add_form', '_add_form[input_only]'],
+    'C20': ['solve', '_attempt_field', '_add_form', '_add_form[input_only]'],
 }
 MAINTAG = {'C01': 'C01', 'C20': 'C20', 'C14': 'C14'}
+
+
+# The line oracle's input outcomes (MissingInput iff declared and absent, InvalidInput iff supplied and rejected, a value only when
+# supplied and valid) are the contract of InputStore.__getitem__: its unit is part of every property proved through the oracle.
+ORACLE_USERS = ('C01', 'C03', 'C13')
+
+
+def oracle_store_unit(prop):
+    from . import c11
+    out = []
+    for o in c11.store_getitem():
+        o.id = o.id.replace('C11/', f'{prop}/oracle/')
+        out.append(o)
+    return out
 
 
 def unit_runner(name):
@@ -56,6 +71,8 @@ def gather(prop, tier, seed, extra_tasks=()):
     if prop in MAINTAG:
         tasks.append(Task('unit/main', unit_runner, 'main', weight=2))
     tasks += list(extra_tasks)
+    if prop in ORACLE_USERS:
+        tasks.append(Task('oracle/InputStore.__getitem__', oracle_store_unit, prop))
     obs = oblig.run_tasks(tasks, jobs=4)
     sel = SELECT[prop]
     solver_obs = [o for o in obs if o.id.startswith('SOLVER/') and (sel(o.id.split('/', 1)[1]) or any(k in o.id for k in ALWAYS))]
